@@ -94,7 +94,7 @@ def hist_ctor_cases(alpha, depth, first=None):
     plist = "[" + ", ".join('"%s"' % p for p in H_PATTERNS) + "]"
     for f in H_FLAGS:
         for seq in itertools.product(alpha, repeat=depth):
-            if first is not None and seq[0] != first:
+            if first is not None and seq[:len(first.split())] != tuple(first.split()):
                 continue
             src = (H_PRE + 'var P = %s; var res = []; var i; for (i = 0; i < P.length; i++) res.push(new RegExp(P[i], "%s")); '
                    'for (i = 0; i < res.length; i++) { var re = res[i]; %s} 1' % (plist, f, "".join(step_src(o) for o in seq)))
@@ -455,9 +455,11 @@ def thorough_strata():
                      H_RULE + "new RegExp, every depth-5 history over the 5-operation core (e1 e2 t1 lastIndex=1 lastIndex=2)",
                      "6 flags x 5^5 programs x 6 patterns"))
     for o in ALPHA5:
-        st.append(_space("c20_hist_ctor_d6_core5_%s" % o, lambda o=o: hist_ctor_cases(ALPHA5, 6, first=o),
-                         H_RULE + "new RegExp, every depth-6 history over the 5-operation core starting with %s" % o,
-                         "6 flags x 5^5 programs x 6 patterns"))
+        for o2 in ALPHA5:
+            st.append(_space("c20_hist_ctor_d6_core5_%s_%s" % (o, o2),
+                             lambda o=o, o2=o2: hist_ctor_cases(ALPHA5, 6, first=o + " " + o2),
+                             H_RULE + "new RegExp, every depth-6 history over the 5-operation core starting with %s %s" % (o, o2),
+                             "6 flags x 5^4 programs x 6 patterns"))
     for i, t in enumerate(TOKENS):
         st.append(_space("c20_sm_tmpl3_%d" % i, lambda t=t: sm_template_cases(templates(3, 3, first=t)),
                          S_RULE + "templates of exactly 3 tokens starting with %s" % t, "30 x 3 x <=100 x 8"))
